@@ -59,6 +59,8 @@ type socket struct {
 
 	flushMu    sync.Mutex
 	flushAgain atomic.Bool
+	// bufferMu keeps writeBuffer and packetsFn in step
+	bufferMu sync.Mutex
 }
 
 func (s *socket) Protocol() int {
@@ -514,12 +516,16 @@ func (s *socket) sendPacket(
 		// exports packetCreate event
 		s.Emit("packetCreate", packet)
 
+		// the packet and its callback enter their queues together: flush takes
+		// both queues, and a callback must belong to the batch of its packet
+		s.bufferMu.Lock()
 		s.writeBuffer.Push(packet)
 
 		// add send callback to object, if defined
 		if callback != nil {
 			s.packetsFn.Push(callback)
 		}
+		s.bufferMu.Unlock()
 
 		s.flush()
 	}
@@ -553,11 +559,15 @@ func (s *socket) flush() {
 // flushOnce hands the buffered packets to the transport. Called with flushMu held.
 func (s *socket) flushOnce() {
 	if s.ReadyState() != "closed" && s.Transport().Writable() {
-		if wbuf := s.writeBuffer.AllAndClear(); len(wbuf) > 0 {
+		s.bufferMu.Lock()
+		wbuf := s.writeBuffer.AllAndClear()
+		packetsFn := s.packetsFn.AllAndClear()
+		s.bufferMu.Unlock()
+		if len(wbuf) > 0 {
 			socket_log.Debug("flushing buffer to transport")
 			s.Emit("flush", wbuf)
 			s.server.Emit("flush", s, wbuf)
-			if packetsFn := s.packetsFn.AllAndClear(); len(packetsFn) > 0 {
+			if len(packetsFn) > 0 {
 				s.sentCallbackFn.Push(packetsFn)
 			} else {
 				s.sentCallbackFn.Push(nil)
